@@ -16,6 +16,9 @@ def case_spec(seed, i):
         if n['kind'] == 'metric' and n.get('dir') is not None and n.get('ref') is not None and n.get('type') is None:
             if rnd.random() < .5:
                 n['type'] = rnd.choice(['OBJECTIVE', 'CONSTRAINT'])
+        # "either role" stated explicitly is the same as stating nothing: still ambiguous when both roles are possible
+        if n['kind'] == 'metric' and n.get('type') is None and rnd.random() < .2:
+            n['type'] = 'OBJ_OR_CON'
     return 'gen', sp
 
 
